@@ -464,6 +464,15 @@ package server
 //@ trusted toProtocolSeverity
 //@   effects none
 
+// publishDiagnostics: every range sent for a load error is a value-preserving conversion (a missing range is clamped to 0:0).
+//@ func (*Server).publishDiagnostics
+//@   props C08
+//@   requires s != nil && s.analyzer != nil && s.loader != nil && len(content) < 4294967294
+//@   modifies s.resolved, s.loader.cache[*], s.workspace.cachedAccounts, s.workspace.cachedCommodities
+//@   loop 1 invariant 0 - 1 <= rangeindex && rangeindex <= len(loadErrors) - 1
+//@   loop 1 invariant forall i int :: 0 <= i && i < len(loadErrors) ==> 0 <= loadErrors[i].Range.Start.Line && loadErrors[i].Range.Start.Line <= 4294967296 && 0 <= loadErrors[i].Range.Start.Column && loadErrors[i].Range.Start.Column <= 4294967296 && 0 <= loadErrors[i].Range.End.Line && loadErrors[i].Range.End.Line <= 4294967296 && 0 <= loadErrors[i].Range.End.Column && loadErrors[i].Range.End.Column <= 4294967296
+//@   loop 1 decreases len(loadErrors) - rangeindex
+
 //@ func (*Server).analyze
 //@   props C18 C02 C08
 //@   requires s != nil && s.analyzer != nil && len(content) < 4294967294
